@@ -16,6 +16,10 @@ and "contains exactly the receivers the keys support":
          (where the writer's type fixes it) and reads exactly that many bytes
   REQ    UnifiedIncomingViewingKey::address: with a pool's requirement Omit the receiver handed to
          UnifiedAddress::from_receivers stays None; Require with the key absent is KeyNotAvailable
+  INDEX  every pool address inside UnifiedIncomingViewingKey::address comes from a derivation AT an
+         index (address_at / derive_address) whose index derives from the `_j` parameter alone
+  EXTSCOPE to_unified_incoming_viewing_key derives every component for the external scope
+  COVER  to_ufvk / render read every field of their key record (incl. the preserved unknown items)
 Not decided: everything cryptographic (ZIP 32 derivation, diversifier search, decryptability),
 the string encodings (C10), equality of re-encoded bytes.
 """
@@ -48,7 +52,8 @@ def name_tags(path):
     p = re.sub(r"<[^<>]*>", "", path)
     p = re.sub(r"<[^<>]*>", "", p)
     segs = [s for s in p.split("::") if s]
-    return ptag("::".join(segs[-3:]))
+    root = {"orchard": {"O"}, "sapling_crypto": {"S"}, "zcash_transparent": {"T"}}.get(segs[0].lstrip("<&"), set()) if segs else set()
+    return ptag("::".join(segs[-3:])) | root
 
 
 class Ctx:
@@ -506,6 +511,152 @@ def rule_req(chk, w):
                      "Err(KeyNotAvailable)" % fld, f.span.loc())
 
 
+def _leaves(o, acc=None, depth=0):
+    """argument / local / constant leaves of an origin tree"""
+    acc = set() if acc is None else acc
+    if not isinstance(o, tuple) or depth > 40:
+        return acc
+    k = o[0]
+    if k == "arg":
+        acc.add("arg%d" % o[1])
+    elif k == "local":
+        acc.add("_%d" % o[1])
+    elif k in ("ref", "deref", "un", "disc"):
+        _leaves(o[-1], acc, depth + 1)
+    elif k in ("variant", "field", "proj"):
+        _leaves(o[1], acc, depth + 1)
+    elif k == "cast":
+        _leaves(o[2], acc, depth + 1)
+    elif k == "bin":
+        _leaves(o[2], acc, depth + 1)
+        _leaves(o[3], acc, depth + 1)
+    elif k in ("call", "agg"):
+        for a in o[2]:
+            _leaves(a, acc, depth + 1)
+    return acc
+
+
+def rule_index(chk, w):
+    """All receivers of one unified address are derived at the requested diversifier index: inside
+    UnifiedIncomingViewingKey::address every pool address is produced by a derivation AT an index
+    (`address_at`, `derive_address`) and that index comes from the `_j` parameter alone — never from
+    a search (`find_address`) or another index."""
+    fs = w.by_p.get("zcash_keys::keys::UnifiedIncomingViewingKey::address", [])
+    if len(fs) != 1:
+        chk.fail("INDEX", "missing", "UnifiedIncomingViewingKey::address not found")
+        return
+    f = fs[0]
+    ji = (f.argnames or []).index("_j") if "_j" in (f.argnames or []) else 1
+    n = 0
+    for cx in contexts(w, f):
+        b, du = cx.b, cx.du
+        for bb, t in b.calls():
+            if b.blocks[bb].cleanup or t.callee.indirect is not None:
+                continue
+            p = t.callee.target_p()
+            last = p.rsplit("::", 1)[-1]
+            if not re.search(r"address", last) or not name_tags(p) or last in ("from_receivers",):
+                continue
+            n += 1
+            key = "address/%s#%d" % (last, n)
+            if last not in ("address_at", "derive_address"):
+                chk.fail("INDEX", key, "a receiver is produced by %s, not by a derivation at the requested index"
+                         % "::".join(p.rsplit("::", 2)[-2:]), t.span.loc())
+                continue
+            idx = du.origin(t.args[1]) if len(t.args) > 1 else None
+            lv = _leaves(idx) if idx is not None else {"?"}
+            # inside the transparent closure the index is the closure's own parameter, bound to
+            # to_transparent_child_index(_j) at the and_then that is handed the closure
+            ok = False
+            if cx.upvars is None:
+                ok = lv == {"arg%d" % ji}
+            else:
+                par, _caps = cx.upvars
+                ok = lv <= {"arg1"}
+                if ok:
+                    src = set()
+                    for _bb2, t2 in par.b.calls():
+                        if t2.callee.indirect is None and len(t2.args) >= 2:
+                            for a in t2.args[1:]:
+                                oo = par.du.origin(a)
+                                if oo[0] == "agg" and oo[1] == "closure:" + cx.f.id:
+                                    src |= _leaves(par.du.origin(t2.args[0]))
+                    ok = src == {"arg%d" % ji}
+            if ok:
+                chk.ok("INDEX", "address: %s derives its receiver at the requested index `_j`"
+                       % "::".join(p.rsplit("::", 2)[-2:]), sample=(n == 1))
+            else:
+                chk.fail("INDEX", key, "%s is given an index derived from %s, not from `_j` alone"
+                         % ("::".join(p.rsplit("::", 2)[-2:]), sorted(lv)), t.span.loc())
+    if n < 3:
+        chk.fail("INDEX", "sites", "expected the three pools' derivations in address, found %d" % n, f.span.loc())
+
+
+def rule_extscope(chk, w):
+    """The incoming viewing key derived from a full viewing key is the EXTERNAL-scope one for every
+    component (addresses handed out by the UIVK are the account's external addresses)."""
+    fs = w.by_p.get("zcash_keys::keys::UnifiedFullViewingKey::to_unified_incoming_viewing_key", [])
+    if len(fs) != 1:
+        chk.fail("EXTSCOPE", "missing", "to_unified_incoming_viewing_key not found")
+        return
+    n = 0
+    for cx in contexts(w, fs[0]):
+        if cx.upvars is None:
+            continue
+        b, du = cx.b, cx.du
+        for bb, t in b.calls():
+            if b.blocks[bb].cleanup or t.callee.indirect is not None or not name_tags(t.callee.target_p()):
+                continue
+            p = t.callee.target_p()
+            last = p.rsplit("::", 1)[-1]
+            if not re.search(r"ivk", last, re.I):
+                continue
+            n += 1
+            args = [defuse.show(du.origin(a)) for a in t.args]
+            scopes = [m for a in args for m in re.findall(r"zip32::Scope::(\w+)\{\}", a)]
+            if ("external" in last and not scopes) or scopes == ["External"]:
+                chk.ok("EXTSCOPE", "%s component: %s%s" % (POOL[next(iter(name_tags(p)))], last,
+                                                        "(Scope::External)" if scopes else ""), sample=(n == 1))
+            else:
+                chk.fail("EXTSCOPE", "%s" % POOL[next(iter(name_tags(p)))], "the %s component of the UIVK is derived with "
+                         "%s(%s): not the external scope" % (POOL[next(iter(name_tags(p)))], last, ", ".join(args[1:])[:80]),
+                         t.span.loc())
+    if n < 3:
+        chk.fail("EXTSCOPE", "sites", "expected three component derivations, found %d" % n, fs[0].span.loc())
+
+
+def rule_cover(chk, w):
+    """An encoder that drops a component cannot round-trip: the item-list builders read every field of
+    their key record (the known components and the preserved unknown items)."""
+    for n_, adt in (("UnifiedFullViewingKey::to_ufvk", "UnifiedFullViewingKey"),
+                    ("UnifiedIncomingViewingKey::render", "UnifiedIncomingViewingKey")):
+        fs = w.by_p.get("zcash_keys::keys::" + n_, [])
+        a = w.adts.get("zcash_keys::keys::" + adt)
+        if len(fs) != 1 or not a:
+            chk.fail("COVER", n_ + "/missing", "%s not found" % n_)
+            continue
+        fields = [x["name"] for x in a["variants"][0]["fields"]]
+        b = fs[0].body
+        reads = set()
+        for blk in b.blocks:
+            if blk.cleanup:
+                continue
+            for s in blk.stmts:
+                if s.kind != "=":
+                    continue
+                pls = [o.place for o in (s.rv.ops or []) if o.kind in ("copy", "move")]
+                if s.rv.kind in ("ref", "disc"):
+                    pls.append(s.rv.place)
+                for pl in pls:
+                    if pl.local == 1:
+                        reads |= {p[1:] for p in pl.proj if p.startswith(".")}
+        missing = [x for x in fields if x not in reads]
+        if not missing:
+            chk.ok("COVER", "%s reads every field of %s (%s)" % (n_, adt, ", ".join(fields)), sample=True)
+        else:
+            chk.fail("COVER", n_, "%s never reads %s: the encoding loses it" % (n_, missing), fs[0].span.loc())
+
+
 def main(tier):
     chk = Check("C11", "other", tier)
     chk.explanation = (
@@ -524,6 +675,9 @@ def main(tier):
     chk.rule("ARM", "a typecode / item-kind arm touches its own pool only", floor=8)
     chk.rule("USK", "spending-key byte codec: typecode/key adjacency and lengths", floor=6)
     chk.rule("REQ", "address derivation honours Omit and Require per pool", floor=6)
+    chk.rule("INDEX", "every receiver of a unified address is derived at the requested index", floor=3)
+    chk.rule("EXTSCOPE", "the UIVK derived from a UFVK is the external-scope key, per component", floor=3)
+    chk.rule("COVER", "the item-list encoders read every field of their key", floor=2)
     w = zf.World(extract.facts_dir("all"), ["zcash_keys", "zcash_address"])
     counts = {"slot": 0, "arm": 0}
     roots = [f for f in w.fns.values() if f.crate.name == "zcash_keys" and not f.is_closure() and
@@ -535,4 +689,7 @@ def main(tier):
             check_arms(chk, w, cx, counts)
     rule_usk(chk, w)
     rule_req(chk, w)
+    rule_index(chk, w)
+    rule_extscope(chk, w)
+    rule_cover(chk, w)
     chk.finish()
